@@ -61,7 +61,7 @@ func c12Run(w *W) {
 	nblocks := 2 + w.Choose(simrt.SShape, 5)
 	var seen []string
 	for bi := 0; bi < nblocks && !w.Failed(); bi++ {
-		blk := w.Choose(simrt.SProg, 11)
+		blk := w.Choose(simrt.SProg, 12)
 		seen = append(seen, fmt.Sprint(blk))
 		switch blk {
 		case 0: // bad scheme
@@ -233,6 +233,19 @@ func c12Run(w *W) {
 			s.SetPipeEventHook(old)
 			c.do("GetOption after rejections", func() (interface{}, error) { return s.GetOption(mangos.OptionMaxRecvSize) })
 			w.Probe("err-rejected-pipe")
+		case 11: // the no-peers outcome, then peers come and go: Send follows the peer set
+			// (on a socket of its own: the run's socket may have peers from earlier blocks)
+			s2 := w.Sock(kind)
+			if err := s2.SetOption(mangos.OptionFailNoPeers, true); err != nil {
+				s2.Close()
+				continue
+			}
+			a := w.Addr("msg")
+			c.do("s2.Listen", func() (interface{}, error) { return nil, s2.Listen(a) })
+			c.do("s2.Send(no peers)", func() (interface{}, error) { return nil, s2.Send([]byte("x")) })
+			c18Rejoin(w, c.mn, a, kind, s2)
+			c.do("s2.Close", func() (interface{}, error) { return nil, s2.Close() })
+			w.Probe("err-no-peers")
 		}
 		if w.WedgeCheck("C12") {
 			return
